@@ -2,6 +2,7 @@ import CminxModel.Pipeline
 import CminxModel.Source
 import CminxLemmas.ParseLemmas
 import CminxLemmas.RoundTripLex
+import CminxProps.C06
 /-!
 # T-parse / T-lex — the printer of decorated modules round-trips through the scanner and the parser
 
@@ -18,13 +19,19 @@ def isIdentText : Str → Bool
   | [] => false
   | c :: cs => identStart c && cs.all identChar
 
+/-- the text is a complete `Quoted_argument`: `"`, then a body whose first unescaped `"` is its last character -/
+def isQuotedText : Str → Bool
+  | '"' :: r => quotedBody r == some r.length
+  | _ => false
+
 /-- The kind the scanner gives an argument token.  A bare word that has the shape of an identifier is an
-    `Identifier`, any other bare word an `Unquoted_argument`.  A bracket argument whose whole text (delimiters
+    `Identifier`, any other bare word an `Unquoted_argument` (the generator also writes the parameter name `"q"`
+    as a "bare" token; such a text is a `Quoted_argument`).  A bracket argument whose whole text (delimiters
     included) consists of unquoted-argument characters — e.g. `[[ab]]` — matches `Unquoted_argument` with the same
     length, and that rule is listed first; otherwise it is a `Bracket_argument`.  (The parser treats the four
     kinds alike.) -/
 def ArgTok.kind : ArgTok → TokKind
-  | .bare s => if isIdentText s then .identifier else .unquoted
+  | .bare s => if isIdentText s then .identifier else if isQuotedText s then .quoted else .unquoted
   | .quoted _ => .quoted
   | .bracket lvl s =>
     if unqLen (ArgTok.bracket lvl s).text = (ArgTok.bracket lvl s).text.length then .unquoted else .bracketArg
@@ -127,12 +134,13 @@ def sepValid (follow : Str) : Sep → Bool
   | a :: as => a.valid (renderSep as ++ follow) && sepValid follow as
 
 /-- * bare word: non-empty, consists of unquoted-argument characters and valid escapes only, does not open a
-      bracket (`[[x` would be an unterminated bracket argument), and what follows does not extend it;
+      bracket (`[[x` would be an unterminated bracket argument), and what follows does not extend it
+      (or the "bare" text is a complete quoted argument);
     * quoted: the first unescaped `"` of `s"` is the closing one and every backslash starts a valid escape;
     * bracket: its terminator first occurs at its end; if the whole token also reads as an unquoted argument
       (e.g. `[[ab]]`) what follows must not extend it -/
 def ArgTok.valid (follow : Str) : ArgTok → Bool
-  | .bare s => !s.isEmpty && unqLen s == s.length && !opensBracket s && stopHead follow
+  | .bare s => isQuotedText s || (!s.isEmpty && unqLen s == s.length && !opensBracket s && stopHead follow)
   | .quoted s => quotedBody (s ++ ['"']) == some (s.length + 1)
   | .bracket lvl s =>
     closesAtEnd lvl s &&
@@ -214,7 +222,7 @@ theorem parseFold_sarg (a : SArg) (p : Option Str) (n : Str) (stack : List (List
   | tok pre t =>
     have hk : t.kind.isArg = true := by
       cases t with
-      | bare s => simp only [ArgTok.kind]; split <;> rfl
+      | bare s => simp only [ArgTok.kind]; split; rfl; split <;> rfl
       | quoted s => rfl
       | bracket lvl s => simp only [ArgTok.kind]; split <;> rfl
     simp [SArg.sigToks, SArg.toArg, parseFold, parseStep, ArgTok.tok, hk]
@@ -421,19 +429,54 @@ theorem isIdentText_iff (s : Str) : isIdentText s = true ↔ identLen s = some s
       rw [← spanLen_eq_length_iff]; omega
     · simp [isIdentText, identLen, hc]
 
+theorem isQuotedText_split {s : Str} (h : isQuotedText s = true) :
+    ∃ body, s = '"' :: (body ++ ['"']) ∧ quotedBody (body ++ ['"']) = some (body.length + 1) := by
+  unfold isQuotedText at h
+  split at h
+  · rename_i r
+    have hq : quotedBody r = some r.length := by simpa using h
+    obtain ⟨body, post, hr, hm, -⟩ := C06_quotedBody_clean hq
+    have hpost : post = [] := by
+      have := congrArg List.length hr
+      simp at this
+      exact List.eq_nil_of_length_eq_zero (by omega)
+    subst hpost
+    subst hr
+    exact ⟨body, rfl, by rw [hq]; simp⟩
+  · cases h
+
 theorem lex_argTok (t : ArgTok) (follow : Str) (sig : List Tok) (hv : t.valid follow = true)
     (h : LexSig follow sig) : LexSig (t.text ++ follow) (t.tok :: sig) := by
   cases t with
   | bare s =>
-    simp only [ArgTok.valid, Bool.and_eq_true, Bool.not_eq_eq_eq_not, Bool.not_true, beq_iff_eq] at hv
-    obtain ⟨⟨⟨hne, hu⟩, hob⟩, hr⟩ := hv
-    have hne' : s ≠ [] := by intro e; subst e; simp at hne
     simp only [ArgTok.text, ArgTok.tok, ArgTok.kind]
-    by_cases hid : isIdentText s = true
-    · rw [if_pos hid]
-      exact LexSig.tok_append (scan_word_ident ((isIdentText_iff s).mp hid) hu hr) rfl h
-    · rw [if_neg hid]
-      exact LexSig.tok_append (scan_word_unq hne' (fun e => hid ((isIdentText_iff s).mpr e)) hu hob hr) rfl h
+    by_cases hq : isQuotedText s = true
+    · have hnid : isIdentText s = false := by
+        cases s with
+        | nil => rfl
+        | cons c cs =>
+          have : c = '"' := by
+            unfold isQuotedText at hq
+            split at hq
+            · rename_i heq; cases heq; rfl
+            · cases hq
+          subst this; simp [isIdentText, identStart, asciiAlpha]
+      rw [hnid, hq]
+      obtain ⟨body, hb, hbody⟩ := isQuotedText_split hq
+      subst hb
+      have hsc := scan_quoted body follow hbody
+      have : ('"' :: (body ++ ['"'])) ++ follow = '"' :: (body ++ '"' :: follow) := by simp
+      refine LexSig.tok_append (k := .quoted) ?_ rfl h
+      rw [this, hsc]; simp
+    · simp only [ArgTok.valid, hq, Bool.false_or, Bool.and_eq_true, Bool.not_eq_eq_eq_not, Bool.not_true,
+        beq_iff_eq] at hv
+      obtain ⟨⟨⟨hne, hu⟩, hob⟩, hr⟩ := hv
+      have hne' : s ≠ [] := by intro e; subst e; simp at hne
+      by_cases hid : isIdentText s = true
+      · rw [if_pos hid]
+        exact LexSig.tok_append (scan_word_ident ((isIdentText_iff s).mp hid) hu hr) rfl h
+      · rw [if_neg hid, if_neg hq]
+        exact LexSig.tok_append (scan_word_unq hne' (fun e => hid ((isIdentText_iff s).mpr e)) hu hob hr) rfl h
   | quoted s =>
     simp only [ArgTok.valid, beq_iff_eq] at hv
     have hsc := scan_quoted s follow hv
